@@ -216,7 +216,7 @@ impl Plan {
         &self.body[skip..]
     }
     pub fn inst(&self) -> dr::Instruction {
-        dr::Instruction::new(
+        crate::rs::mk_inst(
             spirv::Op::from_u32(self.opcode).expect("plan opcode is declared"),
             self.rtype,
             self.rid,
@@ -817,6 +817,9 @@ pub enum End {
 #[derive(Clone, Debug)]
 pub struct RParse {
     pub header: Result<[u32; 5], HeaderFault>,
+    /// a second header fault that is present as well (a header that is both too short and does not
+    /// start with the magic number): the statement names both kinds and ranks neither
+    pub header_alt: Option<HeaderFault>,
     pub insts: Vec<RInst>,
     pub end: End,
     /// an id was defined twice: the width clause is outside the stated precondition
@@ -1114,8 +1117,14 @@ pub fn bytes_to_words(b: &[u8]) -> Vec<u32> {
 pub fn ref_parse(bytes: &[u8]) -> RParse {
     let g = golden();
     if bytes.len() < 20 {
+        let alt = if bytes.len() >= 4 && le32(bytes) != MAGIC {
+            Some(if le32(bytes) == MAGIC.swap_bytes() { HeaderFault::Endianness } else { HeaderFault::Incorrect })
+        } else {
+            None
+        };
         return RParse {
             header: Err(HeaderFault::Incomplete),
+            header_alt: alt,
             insts: vec![],
             end: End::Clean,
             redefined_id: false,
@@ -1130,6 +1139,7 @@ pub fn ref_parse(bytes: &[u8]) -> RParse {
         };
         return RParse {
             header: Err(f),
+            header_alt: None,
             insts: vec![],
             end: End::Clean,
             redefined_id: false,
@@ -1156,11 +1166,17 @@ pub fn ref_parse(bytes: &[u8]) -> RParse {
         let wc = (first >> 16) as usize;
         let opcode = first & 0xffff;
         if wc == 0 {
+            // a zero word count on an undeclared opcode number: both faults are present in this
+            // instruction, the statement does not rank them
+            let mut classes = vec![Fault::WordCountZero];
+            if !g.core_by_code.contains_key(&opcode) {
+                classes.push(Fault::OpcodeUnknown);
+            }
             end = End::Fault {
                 index,
                 start: off,
                 wc: 0,
-                classes: vec![Fault::WordCountZero],
+                classes,
                 dont_care: false,
             };
             break;
@@ -1244,6 +1260,12 @@ pub fn ref_parse(bytes: &[u8]) -> RParse {
                 }
             }
         }
+        if truncated && !classes.is_empty() && !classes.contains(&Fault::Missing) {
+            // the declared extent leaves the stream: words the instruction promises are missing,
+            // whatever else is wrong with the words that are there (both faults are present; the
+            // statement does not say which one is named)
+            classes.push(Fault::Missing);
+        }
         if dont_care || !classes.is_empty() {
             classes.sort();
             classes.dedup();
@@ -1279,6 +1301,7 @@ pub fn ref_parse(bytes: &[u8]) -> RParse {
         off += wc * 4;
     }
     RParse {
+        header_alt: None,
         header: Ok(header),
         insts,
         end,
@@ -1320,5 +1343,5 @@ pub fn rinst_to_dr(r: &RInst) -> Option<dr::Instruction> {
     for o in &r.ops {
         ops.push(rop_operand(o)?);
     }
-    Some(dr::Instruction::new(op, r.rtype, r.rid, ops))
+    Some(crate::rs::mk_inst(op, r.rtype, r.rid, ops))
 }
